@@ -171,14 +171,28 @@ Proof.
 Qed.
 
 (** and a valid one always yields a box *)
+Lemma linspace_nonempty a b k : (1 <= k)%nat -> linspace a b k <> [].
+Proof.
+  intros Hk E. assert (L := linspace_length a b k). rewrite E in L. cbn in L. lia.
+Qed.
+
+Lemma region_nodes_nonempty w e s n k : (1 <= k)%nat -> region_nodes w e s n k <> [].
+Proof.
+  intros Hk. unfold region_nodes.
+  destruct (linspace s n k) as [|y ty] eqn:Ey; [exfalso; apply (linspace_nonempty s n k Hk Ey)|].
+  destruct (linspace w e k) as [|x tx] eqn:Ex; [exfalso; apply (linspace_nonempty w e k Hk Ex)|].
+  cbn [flat_map map app]. discriminate.
+Qed.
+
 Theorem project_region_total f g w e s n : w <= e -> s <= n ->
   exists b, project_region f g [w; e; s; n] = Some b.
 Proof.
   intros Hwe Hsn. unfold project_region, project_region_k.
   assert (C: check_region [w; e; s; n] = true) by (apply check_region_iff; exists w, e, s, n; tauto).
-  rewrite C. unfold region_nodes.
-  change (linspace s n 101) with (linspace s n (S (S 99))). change (linspace w e 101) with (linspace w e (S (S 99))).
-  cbn [linspace seq map flat_map app get_region]. eexists. reflexivity.
+  rewrite C.
+  destruct (region_nodes w e s n 101) as [|p t] eqn:E.
+  - exfalso. apply (region_nodes_nonempty w e s n 101); [lia|exact E].
+  - cbn [map get_region]. eexists. reflexivity.
 Qed.
 
 (** non-vacuity: the documentation's projection (2x, -y) and a shear are
